@@ -238,11 +238,27 @@ func (c *Ctx) cloneBeforeMutate() {
 						continue
 					}
 					bo, ok := iff.Cond.(*ssa.BinOp)
-					if !ok || bo.Op.String() != ">" {
+					if !ok {
 						continue
 					}
-					qc, ok := bo.X.(*ssa.Call)
-					if ok && ir.IsMethod(qc.Common(), pkgMessage, "PublishMessage", "QoS") && sameExpr(bo.Y, call.Common().Args[1]) && id.Succs[0].Dominates(blk) {
+					// normalise to "stored > granted" holding on edge e: a > b (true), a <= b (false), b < a (true), b >= a (false)
+					var stored, granted ssa.Value
+					edge := -1
+					switch bo.Op.String() {
+					case ">":
+						stored, granted, edge = bo.X, bo.Y, 0
+					case "<=":
+						stored, granted, edge = bo.X, bo.Y, 1
+					case "<":
+						stored, granted, edge = bo.Y, bo.X, 0
+					case ">=":
+						stored, granted, edge = bo.Y, bo.X, 1
+					default:
+						continue
+					}
+					qc, ok := stored.(*ssa.Call)
+					sb := id.Succs[edge]
+					if ok && ir.IsMethod(qc.Common(), pkgMessage, "PublishMessage", "QoS") && sameExpr(granted, call.Common().Args[1]) && len(sb.Preds) == 1 && (sb == blk || sb.Dominates(blk)) {
 						okGuard = true
 					}
 				}
@@ -386,25 +402,15 @@ func (c *Ctx) pruneGuards() {
 					content = append(content, st.Field(i).Name())
 				}
 			}
-			// atoms on the dominator chain of the delete
+			// facts on the dominator chain of the delete (tests made through boolean helpers are expanded)
 			tested := map[string]bool{}
-			blk := call.Block()
-			for d := blk; d.Idom() != nil; d = d.Idom() {
-				id := d.Idom()
-				iff, ok := id.Instrs[len(id.Instrs)-1].(*ssa.If)
-				if !ok {
-					continue
-				}
-				for idx, s := range id.Succs {
-					if s == d || s.Dominates(d) && len(s.Preds) == 1 {
-						a, t := edgeAtom(iff, idx)
-						for _, f := range content {
-							if strings.Contains(a, node.Obj().Name()+"."+f) {
-								// must be the "empty" direction
-								if strings.HasPrefix(a, "nonnil:") && !t || strings.HasPrefix(a, "eq:len(") && strings.HasSuffix(a, ":0") && t || strings.HasPrefix(a, "gt:len(") && strings.HasSuffix(a, ":0") && !t {
-									tested[f] = true
-								}
-							}
+			for _, fc := range c.blockFacts(call.Block(), 2) {
+				a, t := fc.Atom, fc.Truth
+				for _, f := range content {
+					if strings.Contains(a, node.Obj().Name()+"."+f) {
+						// must be the "empty" direction
+						if strings.HasPrefix(a, "nonnil:") && !t || strings.HasPrefix(a, "eq:len(") && strings.HasSuffix(a, ":0") && t || strings.HasPrefix(a, "gt:len(") && strings.HasSuffix(a, ":0") && !t {
+							tested[f] = true
 						}
 					}
 				}
